@@ -489,6 +489,8 @@ impl World {
             self.fail(Class::OkErrRefresh, what, format!("sut: {:?}", r.as_ref().err().map(|e| e.to_string())));
             if mr.is_err() {
                 self.fail(Class::Tracing, "refresh/unknown-id-accepted", String::new());
+                // C08: this state of the master key never issued that key
+                self.fail(Class::Forged, "refresh-accepted/key-not-issued-by-this-msk-state", String::new());
             } else {
                 self.fail(Class::Tracing, "refresh/issued-key-refused", format!("sut: {:?}", r.as_ref().err().map(|e| e.to_string())));
             }
@@ -1124,7 +1126,13 @@ impl World {
         let m = m.clone();
         let n_rights = m.rights.len();
         let max_chain = m.rights.values().map(|c| c.len()).max().unwrap_or(1);
-        let mut ops: Vec<UskOp> = vec![UskOp::MarkerIntoName, UskOp::Foreign, UskOp::StripSignature];
+        let mut ops: Vec<UskOp> = vec![
+            UskOp::MarkerIntoName,
+            UskOp::Foreign,
+            UskOp::StripSignature,
+            UskOp::AddEmptyRight { other_user: user, j: 0, raw: vec![0x7e] },
+            UskOp::AddEmptyRight { other_user: user, j: 0, raw: vec![0x7d, 0x7e] },
+        ];
         for i in 0..n_rights {
             ops.push(UskOp::MergeAdjacent { i });
             ops.push(UskOp::DupRight { i });
@@ -1146,6 +1154,14 @@ impl World {
             for j in 0..n_rights {
                 if i != j {
                     ops.push(UskOp::MoveSecret { from: i, to: j });
+                    ops.push(UskOp::MoveSecretToEnd { from: i, to: j });
+                    if j > i {
+                        for k in 0..max_chain.min(2) {
+                            for l in 0..max_chain.min(2) {
+                                ops.push(UskOp::SwapSecretsAcross { i, k, j, l });
+                            }
+                        }
+                    }
                     if j == i + 1 || (i == 0 && j == n_rights - 1) {
                         ops.push(UskOp::SwapRights { i, j });
                     }
@@ -1157,6 +1173,9 @@ impl World {
                 ops.push(UskOp::IdFrom { other_user: o });
                 ops.push(UskOp::RightsUnion { other_user: o });
                 ops.push(UskOp::SignatureFrom { other_user: o });
+                for j in 0..4 {
+                    ops.push(UskOp::AddEmptyRight { other_user: o, j, raw: vec![] });
+                }
             }
         }
         for pos in 0..32 {
